@@ -21,7 +21,9 @@
      TXT AAAA SRV; IN CH HS) in any mix of upper and lower case, and `TYPEnnn` / `CLASSnnn`;
    * RDATA (`C23_rdata_partial`): `\# len hex` for any class and type, checked against
      `Rdata::validate`; and the typed syntaxes of A (IN), NS MD MF CNAME MB MG MR PTR (one name),
-     MX, SOA, MINFO, SRV (IN), TXT, HINFO, AAAA (IN; eight hexadecimal groups written in full) —
+     MX, SOA, MINFO, SRV (IN), TXT, HINFO, AAAA (IN; eight hexadecimal groups written in full, with `::` for a run of zero groups,
+     and/or ending in a dotted quad), Chaosnet A (name and octal
+     address) —
      names absolute, relative or `@`, in any octet forms;
      character-strings quoted or unquoted, each octet raw, `\X` or `\DDD`, with raw newlines inside
      quotes; all with the lines they span;
@@ -33,21 +35,27 @@
      defaults: `$TTL` default before previous TTL; previous class), owner absolute / relative /
      `@` / omitted (a leading blank ⇒ previous owner); all gaps of a record general (so records
      may span lines in parentheses opened anywhere, the usual `SOA ( … )` style included);
-     `$ORIGIN`, `$TTL` and `$INCLUDE` directive lines (the latter yield the include request with
+     `$ORIGIN`, `$TTL` and `$INCLUDE` directive lines, with general gaps too (the latter yield the include request with
      the path — a quoted or unquoted string — and the origin given or current); blank and
-     comment-only lines; every line ending LF or CRLF;
+     comment-only lines; every line ending LF or CRLF, the last one possibly with the file;
    * whole files of such entries: exactly the denoted records, in order, with line numbers
      (`C23_records_partial`).
+  KNOWN FINDING D18 (WKS)
+     `serialize_in_wks` sets `1 << (port % 8)`; RFC 1035 §3.4.2 (bits numbered from the most
+     significant, §2.3.2) asks for `0x80 >> (port % 8)`.  `C23_wks_bitmap` proves, for all port
+     lists, that the code's bit map is the RFC's (`wksBitmap`, stated arithmetically) with every
+     octet bit-reversed, and that the repaired mask gives the RFC's; `C23_wks_bit_order_witness`
+     is the concrete record.  The model takes the order from the repository (extractor →
+     `Gen.wksMaskMsbFirst`), so the same theorems check against a repaired tree.
   NOT PROVED (the gap; the name says `_partial`)
-     AAAA addresses written with `::` or an IPv4 suffix, the typed RDATA syntaxes of WKS and
-     Chaosnet A (not in the presentation AST: in the subset they can be written in `\#` form); parentheses (and therefore line ends) inside
-     directive lines — there the fields are separated by blanks only; a last line without
-     newline.  These are covered on every run by the correspondence
-     oracle, which is independent of these proofs: the harness's pretty-printer renders random
-     record lists with random choices for *all* of the above and the expected parse is the
-     generating record list (op `zfp`, spec column = expected records).
+     the typed RDATA syntax of WKS is not in the presentation AST (in the subset such RDATA can be
+     written in `\#` form).  It is covered on every run by the correspondence oracle, which is
+     independent of these proofs: the harness's pretty-printer renders random record lists with
+     random choices for *all* of the above and the expected parse is the generating record list
+     (op `zfp`, spec column = expected records; files with IN WKS ports: op `zfw`, group `zonewks`).
 -/
 import QV.Proofs.ZoneFile.Files
+import QV.Proofs.ZoneFile.Wks
 
 namespace QV.C23
 open QV QV.ZF QV.Spec.ZF
@@ -121,59 +129,64 @@ theorem C23_generic_rdata (ctx : Ctx) (cls ty : Nat) (h41 : ty ≠ 41) (h250 : t
   parseRdata_generic ctx cls ty h41 h250 sep rd ws cmt r hne hsep hlen hvalid hws hc line
 
 /-- **RDATA**, generic or typed (the kinds of `PRdata`: `\#`, A, one-name types, MX, SOA, MINFO,
-    SRV, TXT, HINFO, AAAA), with any well-formed gaps — blanks, parentheses, line ends and comments
+    SRV, TXT, HINFO, AAAA in any of its forms, Chaosnet A), with any well-formed gaps — blanks, parentheses, line ends and comments
     inside parentheses — before (`G 0`), inside (`G (i+1)`) and after it (`tg`), up to the end of
-    the line (LF or CRLF): the text is read as the RDATA it denotes; the line count advances by
-    the line ends inside gaps, names and strings plus one, and the parentheses are closed.
+    the line (LF, CRLF, or the end of the file): the text is read as the RDATA it denotes; the line
+    count advances by the line ends inside gaps, names and strings plus that of the line end, and
+    the parentheses are closed.
     `S i` is "inside parentheses" before gap `i`. -/
 theorem C23_rdata_partial (ctx : Ctx) (hctx : CtxWF ctx) (cls ty : Nat) (h41 : ty ≠ 41) (h250 : ty ≠ 250)
-    (G : Nat → PGap) (S : Nat → Bool) (tg : PGap) (cmt : List UInt8) (crlf : Bool) (r : List UInt8)
-    (rd : PRdata) (hG : ∀ i, i ≤ rdataGaps rd → GapOK (G i) (S i) (S (i + 1)))
+    (G : Nat → PGap) (S : Nat → Bool) (tg : PGap) (cmt : List UInt8) (eol : PEol) (r : List UInt8)
+    (he : eol = .eof → r = []) (rd : PRdata) (hG : ∀ i, i ≤ rdataGaps rd → GapOK (G i) (S i) (S (i + 1)))
     (hT : TailOK tg cmt (S (rdataGaps rd + 1))) (hwf : WFRdata rd)
     (hk : kindOK cls ty rd = true) (w : List UInt8) (hw : rdataWire ctx.origin rd = some w)
     (hv : ∀ g, rd = .generic g → Rdata.validate cls ty g.toArray = .ok ()) (line : Nat) :
     parseRdata ctx cls ty
-      ⟨gapText (G 0) ++ (rdataText (fun i => G (i + 1)) rd ++ (tailText tg cmt crlf ++ r)), line, S 0⟩ =
-      .ok (w, ⟨r, line + gapLines (G 0) + rdataLines (fun i => G (i + 1)) rd + gapLines tg + 1, false⟩) :=
-  parseRdata_render ctx hctx cls ty h41 h250 G S tg cmt crlf r rd hG hT hwf hk w hw hv line
+      ⟨gapText (G 0) ++ (rdataText (fun i => G (i + 1)) rd ++ (tailText tg cmt eol ++ r)), line, S 0⟩ =
+      .ok (w, ⟨r, line + gapLines (G 0) + rdataLines (fun i => G (i + 1)) rd + gapLines tg + eolLines eol, false⟩) :=
+  parseRdata_render ctx hctx cls ty h41 h250 G S tg cmt eol r he rd hG hT hwf hk w hw hv line
 
 /-- **Gaps and line ends** (the lexical layer): a well-formed gap is skipped up to the next
     field, with the line count and parenthesis state it implies; the end of a record or line —
-    a gap that leaves the parentheses, an optional comment, LF or CRLF — is recognised as such -/
+    a gap that leaves the parentheses, an optional comment, LF, CRLF or the end of the file — is
+    recognised as such -/
 theorem C23_gaps (thr : Bool) (g : PGap) (p p' : Bool) (hg : GapOK g p p') (X : List UInt8) (hX : Starts X)
-    (tg : PGap) (cmt : List UInt8) (q : Bool) (hT : TailOK tg cmt q) (crlf : Bool) (r : List UInt8) (line : Nat) :
+    (tg : PGap) (cmt : List UInt8) (q : Bool) (hT : TailOK tg cmt q) (eol : PEol) (r : List UInt8)
+    (he : eol = .eof → r = []) (line : Nat) :
     fieldOrEol thr (gapText g ++ X) line p = .ok (.Field, ⟨X, line + gapLines g, p'⟩) ∧
-    fieldOrEol true (tailText tg cmt crlf ++ r) line q = .ok (.Eol, ⟨r, line + gapLines tg + 1, false⟩) :=
-  ⟨fieldOrEol_gapG thr g p p' hg.wf hg.run X hX line, fieldOrEol_tail tg cmt q hT crlf r line⟩
+    fieldOrEol true (tailText tg cmt eol ++ r) line q = .ok (.Eol, ⟨r, line + gapLines tg + eolLines eol, false⟩) :=
+  ⟨fieldOrEol_gapG thr g p p' hg.wf hg.run X hX line, fieldOrEol_tail tg cmt q hT eol r he line⟩
 
 example : fieldOrEol false (gapText [.blank false, .openParen, .newline [59, 120] true, .blank true] ++ [97]) 1 false =
       .ok (.Field, ⟨[97], 2, true⟩) ∧
-    fieldOrEol true (tailText [.newline [] false, .closeParen, .blank false] [59, 120] true ++ [97]) 1 true =
+    fieldOrEol true (tailText [.newline [] false, .closeParen, .blank false] [59, 120] .crlf ++ [97]) 1 true =
       .ok (.Eol, ⟨[97], 3, false⟩) :=
   C23_gaps false [.blank false, .openParen, .newline [59, 120] true, .blank true] false true
     (GapOK_of_B (by decide)) [97] ⟨97, [], rfl, .inr (by decide)⟩
-    [.newline [] false, .closeParen, .blank false] [59, 120] true (TailOK_of_B (by decide)) true [97] 1
+    [.newline [] false, .closeParen, .blank false] [59, 120] true (TailOK_of_B (by decide)) .crlf [97]
+    (by intro h; cases h) 1
 
 /-! ### records and files -/
 
 /-- one record line ↦ the record it denotes, and the context it leaves -/
 theorem C23_record_partial (ctx : Ctx) (hctx : CtxWF ctx) (p : PRecord) (hwf : WFRecord p) (line : Nat)
-    (r : List UInt8) (sr : SRecord) (sc' : SCtx)
+    (r : List UInt8) (he : p.eol = .eof → r = []) (sr : SRecord) (sc' : SCtx)
     (hden : denoteRecord validB (toSCtx ctx) line p = some (sr, sc')) :
     ∃ ctx', parseLine ctx ⟨renderRecord p ++ r, line, false⟩ =
         .ok ((some (.record sr.line ⟨sr.owner, sr.ttl, sr.cls, sr.ty, sr.rdata⟩), ctx'),
-             ⟨r, line + recordLines p + 1, false⟩) ∧
+             ⟨r, line + recordLines p + eolLines p.eol, false⟩) ∧
       toSCtx ctx' = sc' :=
-  parseLine_record ctx hctx p hwf line r sr sc' hden
+  parseLine_record ctx hctx p hwf line r he sr sc' hden
 
 /-- **Whole files (the subset above).**  For every list of well-formed entries and every
-    well-formed initial context in which the file denotes the records `srs` (`validB`: RDATA
+    well-formed initial context in which the file denotes the records `srs` (`EolsOK`: only the
+    last line may end with the file instead of a line end; `validB`: RDATA
     written in RFC 3597 form must be valid for its class and type, as RFC 3597 §5 asks): the
     parser yields exactly `srs`, in order, with their line numbers, and nothing else. -/
-theorem C23_records_partial (es : List PEntry) (hwf : ∀ e ∈ es, WFEntry e) (ctx : Ctx) (hctx : CtxWF ctx)
-    (srs : List SItem) (hden : denoteFile validB es (toSCtx ctx) 1 = some srs) :
+theorem C23_records_partial (es : List PEntry) (hwf : ∀ e ∈ es, WFEntry e) (heols : EolsOK es) (ctx : Ctx)
+    (hctx : CtxWF ctx) (srs : List SItem) (hden : denoteFile validB es (toSCtx ctx) 1 = some srs) :
     parseAll (renderFile es) ctx = srs.map itemOf :=
-  collect_file es hwf ctx hctx 1 srs hden
+  collect_file es hwf heols ctx hctx 1 srs hden
 
 /-! ### non-vacuity -/
 
@@ -181,6 +194,7 @@ example : WFType (.mnemonic [110, 83] 2) ∧ WFClass (.mnemonic [105, 110] 1) :=
   ⟨⟨"NS", by decide, by decide +kernel⟩, ⟨"IN", by decide, by decide +kernel⟩⟩
 
 private theorem mIN : WFClass (.mnemonic [105, 78] 1) := ⟨"IN", by decide, by decide +kernel⟩
+private theorem mCH : WFClass (.mnemonic [99, 72] 3) := ⟨"CH", by decide, by decide +kernel⟩
 private theorem mNs : WFType (.mnemonic [78, 115] 2) := ⟨"NS", by decide, by decide +kernel⟩
 private theorem mMx : WFType (.mnemonic [109, 120] 15) := ⟨"MX", by decide, by decide +kernel⟩
 private theorem mSoa : WFType (.mnemonic [83, 79, 65] 6) := ⟨"SOA", by decide, by decide +kernel⟩
@@ -199,57 +213,65 @@ private def sU : PString := ⟨false, [(99, .raw), (59, .esc), (100, .raw)]⟩
 private def sD : PString := ⟨false, [(100, .dec)]⟩
 
 /-- the text (`¶` = LF, `¬` = CRLF, `→` = tab):
-    `$ORIGIN t.¶` `a\.b.\010c. iN 5 TYPE1 \# 4 01020304 ;x¬` `→¬` ` →TYPE16→\#(2;h¶ 0161)¶` `$TTL 9¬`
+    `$ORIGIN t.¶` `a\.b.\010c. iN 5 TYPE1 \# 4 01020304 ;x¬` `→¬` ` →TYPE16→\#(2;h¶ 0161)¶` `$TTL→(;x¶ 9 )¬`
     `w CLASS3 TYPE99 \# 0¶` `@ Ns a¶` ` mx 10 m\\\¶.\120.¶` ` SOA @ a ( 1 ;s¬ 2¶→3 4 4294967295 ) ;d¶`
     `a→( 7;¶→iN ) Srv 1 2 3 @¶` ` MINFO a m\\\¶.\120. ;¶` ` a (192.0.2.1)¬` ` (txt "a¶b\"" c\;d¬ \100)¶`
-    ` Hinfo "" \100¶` ` aAaA 2001:db8:0:0:0:0:ff:ffff¶` `$INCLUDE "x y" a¶` `$INCLUDE→z ;¬` -/
+    ` Hinfo "" \100¶` ` aAaA 2001:db8:0:0:0:0:ff:ffff¶` ` aAaA fe80::1¶` ` aAaA ::ffff:192.0.2.1¶` ` aAaA 1:2:3:4:5:6:10.0.0.255¶` `a cH a @ 177777¶` `$INCLUDE "x y" (a)¶` `$INCLUDE→z ;` (no line end) -/
 def exFile : List PEntry :=
-  [.origin [[(116, .raw)]] [32] [] [] false,
+  [.origin [[(116, .raw)]] [.blank false] [] [] .lf,
    .record ⟨.named (.abs [[(97, .raw), (46, .esc), (98, .raw)], [(10, .dec), (99, .raw)]]), some 5,
-      some (.mnemonic [105, 78] 1), true, .generic 1, .generic [1, 2, 3, 4], [], [], [.blank false], [59, 120], true⟩,
-   .blank [9] [] true,
+      some (.mnemonic [105, 78] 1), true, .generic 1, .generic [1, 2, 3, 4], [], [], [.blank false], [59, 120], .crlf⟩,
+   .blank [9] [] .crlf,
    .record ⟨.same, none, none, false, .generic 16, .generic [1, 97], [[.blank false, .blank true]],
-      [[.blank true], [.openParen], [.newline [59, 104] false, .blank false]], [.closeParen], [], false⟩,
-   .ttl 9 [32] [] [] true,
-   .record ⟨.named (.rel [] [(119, .raw)]), none, some (.generic 3), false, .generic 99, .generic [], [], [], [], [], false⟩,
-   .record ⟨.named .atSign, none, none, true, .mnemonic [78, 115] 2, .name nA, [], [], [], [], false⟩,
-   .record ⟨.same, none, none, true, .mnemonic [109, 120] 15, .mx 10 nMail, [], [], [], [], false⟩,
+      [[.blank true], [.openParen], [.newline [59, 104] false, .blank false]], [.closeParen], [], .lf⟩,
+   .ttl 9 [.blank true, .openParen, .newline [59, 120] false] [.blank false, .closeParen] [] .crlf,
+   .record ⟨.named (.rel [] [(119, .raw)]), none, some (.generic 3), false, .generic 99, .generic [], [], [], [], [], .lf⟩,
+   .record ⟨.named .atSign, none, none, true, .mnemonic [78, 115] 2, .name nA, [], [], [], [], .lf⟩,
+   .record ⟨.same, none, none, true, .mnemonic [109, 120] 15, .mx 10 nMail, [], [], [], [], .lf⟩,
    .record ⟨.same, none, none, true, .mnemonic [83, 79, 65] 6, .soa .atSign nA 1 2 3 4 4294967295, [],
       [[.blank false], [.blank false], [.blank false, .openParen, .blank false],
        [.blank false, .newline [59, 115] true, .blank false], [.newline [] false, .blank true]],
-      [.blank false, .closeParen, .blank false], [59, 100], false⟩,
+      [.blank false, .closeParen, .blank false], [59, 100], .lf⟩,
    .record ⟨.named nA, some 7, some (.mnemonic [105, 78] 1), false, .mnemonic [83, 114, 118] 33,
       .srv 1 2 3 .atSign,
       [[.blank true, .openParen, .blank false], [.newline [59] false, .blank true], [.blank false, .closeParen, .blank false]],
-      [], [], [], false⟩,
-   .record ⟨.same, none, none, true, .mnemonic [77, 73, 78, 70, 79] 14, .minfo nA nMail, [], [], [.blank false], [59], false⟩,
-   .record ⟨.same, none, none, true, .mnemonic [97] 1, .a 192 0 2 1, [], [[.blank false, .openParen]], [.closeParen], [], true⟩,
+      [], [], [], .lf⟩,
+   .record ⟨.same, none, none, true, .mnemonic [77, 73, 78, 70, 79] 14, .minfo nA nMail, [], [], [.blank false], [59], .lf⟩,
+   .record ⟨.same, none, none, true, .mnemonic [97] 1, .a 192 0 2 1, [], [[.blank false, .openParen]], [.closeParen], [], .crlf⟩,
    .record ⟨.same, none, none, true, .mnemonic [116, 120, 116] 16, .txt sQ [sU, sD], [[.blank false, .openParen]],
-      [[.blank false], [.blank false], [.newline [] true, .blank false]], [.closeParen], [], false⟩,
-   .record ⟨.same, none, none, true, .mnemonic [72, 105, 110, 102, 111] 13, .hinfo ⟨true, []⟩ sD, [], [], [], [], false⟩,
-   .record ⟨.same, none, none, true, .mnemonic [97, 65, 97, 65] 28, .aaaa [8193, 3512, 0, 0, 0, 0, 255, 65535], [], [], [], [], false⟩,
-   .incl ⟨true, [(120, .raw), (32, .raw), (121, .raw)]⟩ (some nA) [32] [32] [] [] false,
-   .incl ⟨false, [(122, .raw)]⟩ none [9] [] [32] [59] true]
+      [[.blank false], [.blank false], [.newline [] true, .blank false]], [.closeParen], [], .lf⟩,
+   .record ⟨.same, none, none, true, .mnemonic [72, 105, 110, 102, 111] 13, .hinfo ⟨true, []⟩ sD, [], [], [], [], .lf⟩,
+   .record ⟨.same, none, none, true, .mnemonic [97, 65, 97, 65] 28, .aaaa [8193, 3512, 0, 0, 0, 0, 255, 65535], [], [], [], [], .lf⟩,
+   .record ⟨.same, none, none, true, .mnemonic [97, 65, 97, 65] 28, .aaaaC [65152] [1], [], [], [], [], .lf⟩,
+   .record ⟨.same, none, none, true, .mnemonic [97, 65, 97, 65] 28, .aaaaV4 [] (some [65535]) 192 0 2 1, [], [], [], [], .lf⟩,
+   .record ⟨.same, none, none, true, .mnemonic [97, 65, 97, 65] 28, .aaaaV4 [1, 2, 3, 4, 5, 6] none 10 0 0 255, [], [], [], [], .lf⟩,
+   .record ⟨.named nA, none, some (.mnemonic [99, 72] 3), false, .mnemonic [97] 1, .chA .atSign 65535, [], [], [], [], .lf⟩,
+   .incl ⟨true, [(120, .raw), (32, .raw), (121, .raw)]⟩ (some nA) [.blank false] [.blank false, .openParen] [.closeParen] [] .lf,
+   .incl ⟨false, [(122, .raw)]⟩ none [.blank true] [] [.blank false] [59] .eof]
 
-/-- the example file is well-formed and denotes twelve records and two include requests -/
+/-- the example file is well-formed and denotes sixteen records and two include requests -/
 theorem exFile_ok :
     (∀ e ∈ exFile, WFEntry e) ∧
     denoteFile validB exFile (toSCtx {}) 1 =
       some [.record ⟨2, [3, 97, 46, 98, 2, 10, 99, 0], 5, 1, 1, [1, 2, 3, 4]⟩,
             .record ⟨4, [3, 97, 46, 98, 2, 10, 99, 0], 5, 1, 16, [1, 97]⟩,
-            .record ⟨7, [1, 119, 1, 116, 0], 9, 3, 99, []⟩,
-            .record ⟨8, [1, 116, 0], 9, 3, 2, [1, 97, 1, 116, 0]⟩,
-            .record ⟨9, [1, 116, 0], 9, 3, 15, [0, 10, 3, 109, 92, 10, 1, 120, 0]⟩,
-            .record ⟨11, [1, 116, 0], 9, 3, 6, [1, 116, 0, 1, 97, 1, 116, 0, 0, 0, 0, 1, 0, 0, 0, 2, 0, 0, 0, 3,
+            .record ⟨8, [1, 119, 1, 116, 0], 9, 3, 99, []⟩,
+            .record ⟨9, [1, 116, 0], 9, 3, 2, [1, 97, 1, 116, 0]⟩,
+            .record ⟨10, [1, 116, 0], 9, 3, 15, [0, 10, 3, 109, 92, 10, 1, 120, 0]⟩,
+            .record ⟨12, [1, 116, 0], 9, 3, 6, [1, 116, 0, 1, 97, 1, 116, 0, 0, 0, 0, 1, 0, 0, 0, 2, 0, 0, 0, 3,
               0, 0, 0, 4, 255, 255, 255, 255]⟩,
-            .record ⟨14, [1, 97, 1, 116, 0], 7, 1, 33, [0, 1, 0, 2, 0, 3, 1, 116, 0]⟩,
-            .record ⟨16, [1, 97, 1, 116, 0], 9, 1, 14, [1, 97, 1, 116, 0, 3, 109, 92, 10, 1, 120, 0]⟩,
-            .record ⟨18, [1, 97, 1, 116, 0], 9, 1, 1, [192, 0, 2, 1]⟩,
-            .record ⟨19, [1, 97, 1, 116, 0], 9, 1, 16, [4, 97, 10, 98, 34, 3, 99, 59, 100, 1, 100]⟩,
-            .record ⟨22, [1, 97, 1, 116, 0], 9, 1, 13, [0, 1, 100]⟩,
-            .record ⟨23, [1, 97, 1, 116, 0], 9, 1, 28, [32, 1, 13, 184, 0, 0, 0, 0, 0, 0, 0, 0, 0, 255, 255, 255]⟩,
-            .incl 24 [120, 32, 121] (some [1, 97, 1, 116, 0]),
-            .incl 25 [122] (some [1, 116, 0])] := by
+            .record ⟨15, [1, 97, 1, 116, 0], 7, 1, 33, [0, 1, 0, 2, 0, 3, 1, 116, 0]⟩,
+            .record ⟨17, [1, 97, 1, 116, 0], 9, 1, 14, [1, 97, 1, 116, 0, 3, 109, 92, 10, 1, 120, 0]⟩,
+            .record ⟨19, [1, 97, 1, 116, 0], 9, 1, 1, [192, 0, 2, 1]⟩,
+            .record ⟨20, [1, 97, 1, 116, 0], 9, 1, 16, [4, 97, 10, 98, 34, 3, 99, 59, 100, 1, 100]⟩,
+            .record ⟨23, [1, 97, 1, 116, 0], 9, 1, 13, [0, 1, 100]⟩,
+            .record ⟨24, [1, 97, 1, 116, 0], 9, 1, 28, [32, 1, 13, 184, 0, 0, 0, 0, 0, 0, 0, 0, 0, 255, 255, 255]⟩,
+            .record ⟨25, [1, 97, 1, 116, 0], 9, 1, 28, [254, 128, 0, 0, 0, 0, 0, 0, 0, 0, 0, 0, 0, 0, 0, 1]⟩,
+            .record ⟨26, [1, 97, 1, 116, 0], 9, 1, 28, [0, 0, 0, 0, 0, 0, 0, 0, 0, 0, 255, 255, 192, 0, 2, 1]⟩,
+            .record ⟨27, [1, 97, 1, 116, 0], 9, 1, 28, [0, 1, 0, 2, 0, 3, 0, 4, 0, 5, 0, 6, 10, 0, 0, 255]⟩,
+            .record ⟨28, [1, 97, 1, 116, 0], 9, 3, 1, [1, 116, 0, 255, 255]⟩,
+            .incl 29 [120, 32, 121] (some [1, 97, 1, 116, 0]),
+            .incl 30 [122] (some [1, 116, 0])] := by
   refine ⟨?_, by decide +kernel⟩
   have wfA : WFName nA := by unfold nA WFName; exact ⟨by decide, by simp [LabelsOK, labelOctets], by decide⟩
   have wfMail : WFName nMail := by
@@ -258,17 +280,18 @@ theorem exFile_ok :
     intro n h; cases h
   intro e he
   simp only [exFile, List.mem_cons, List.mem_nil_iff, or_false] at he
-  rcases he with rfl | rfl | rfl | rfl | rfl | rfl | rfl | rfl | rfl | rfl | rfl | rfl | rfl | rfl | rfl | rfl | rfl
-  · exact ⟨⟨by simp, by decide, by simp [LabelsOK, labelOctets], by decide⟩, by simp, by decide, by decide, .inl rfl⟩
+  rcases he with rfl | rfl | rfl | rfl | rfl | rfl | rfl | rfl | rfl | rfl | rfl | rfl | rfl | rfl | rfl | rfl | rfl | rfl | rfl | rfl | rfl
+  · exact ⟨⟨by simp, by decide, by simp [LabelsOK, labelOctets], by decide⟩, false, GapOK_of_B (by decide),
+      TailOK_of_B (by decide)⟩
   · refine ⟨?_, by decide, ?_,
       ⟨by simp [WFType], by decide, by decide, by decide⟩, by simp [WFRdata], gaps_ok_of_B _ (by decide)⟩
     · intro n hn; cases hn
       exact ⟨⟨by simp, by decide, by simp [LabelsOK, labelOctets], by decide⟩, by decide⟩
     · intro c hc; cases hc; exact mIN
-  · exact ⟨by decide, .inl rfl⟩
+  · exact ⟨by decide, .inl rfl, by decide⟩
   · exact ⟨noOwner, by decide, (by intro c hc; cases hc),
       ⟨by simp [WFType], by decide, by decide, by decide⟩, by simp [WFRdata], gaps_ok_of_B _ (by decide)⟩
-  · exact ⟨by decide, by simp, by decide, by decide, .inl rfl⟩
+  · exact ⟨by decide, true, GapOK_of_B (by decide), TailOK_of_B (by decide)⟩
   · refine ⟨?_, by decide, ?_,
       ⟨by simp [WFType], by decide, by decide, by decide⟩, by simp [WFRdata], gaps_ok_of_B _ (by decide)⟩
     · intro n hn; cases hn
@@ -300,46 +323,64 @@ theorem exFile_ok :
       ⟨⟨by decide, by decide, by decide⟩, ⟨by decide, by decide, by decide⟩, by decide⟩, gaps_ok_of_B _ (by decide)⟩
   · exact ⟨noOwner, by decide, (by intro c hc; cases hc),
       ⟨mAaaa, by decide, by decide, by decide⟩, ⟨by decide, by decide⟩, gaps_ok_of_B _ (by decide)⟩
-  · refine ⟨⟨by decide, by decide, by decide⟩, ?_, by simp, by decide, by decide, .inl rfl⟩
-    intro n hn; cases hn; exact ⟨wfA, by simp, by decide⟩
-  · exact ⟨⟨by decide, by decide, by decide⟩, (by intro n hn; cases hn), by simp, by decide, by decide,
-      .inr ⟨[], rfl, by simp⟩⟩
+  · exact ⟨noOwner, by decide, (by intro c hc; cases hc),
+      ⟨mAaaa, by decide, by decide, by decide⟩, ⟨by decide, by decide, by decide⟩, gaps_ok_of_B _ (by decide)⟩
+  · exact ⟨noOwner, by decide, (by intro c hc; cases hc),
+      ⟨mAaaa, by decide, by decide, by decide⟩, ⟨by decide, by decide, by decide, by decide, by decide, by decide, by decide⟩,
+      gaps_ok_of_B _ (by decide)⟩
+  · exact ⟨noOwner, by decide, (by intro c hc; cases hc),
+      ⟨mAaaa, by decide, by decide, by decide⟩, ⟨by decide, by decide, by decide, by decide, by decide, by decide⟩,
+      gaps_ok_of_B _ (by decide)⟩
+  · refine ⟨?_, by decide, ?_, ⟨mA, by decide, by decide, by decide⟩, ⟨trivial, by decide, by decide⟩,
+      gaps_ok_of_B _ (by decide)⟩
+    · intro n hn; cases hn; exact ⟨wfA, by decide⟩
+    · intro c hc; cases hc; exact mCH
+  · refine ⟨⟨by decide, by decide, by decide⟩, false, true, GapOK_of_B (by decide), ?_, (by intro h; cases h),
+      TailOK_of_B (by decide)⟩
+    intro n hn; cases hn; exact ⟨wfA, GapOK_of_B (by decide)⟩
+  · exact ⟨⟨by decide, by decide, by decide⟩, false, false, GapOK_of_B (by decide), (by intro n hn; cases hn),
+      (fun _ => rfl), TailOK_of_B (by decide)⟩
 
 /-- … so the theorem applies to it -/
 example : parseAll (renderFile exFile) {} =
     [.item (.record 2 ⟨[3, 97, 46, 98, 2, 10, 99, 0], 5, 1, 1, [1, 2, 3, 4]⟩),
      .item (.record 4 ⟨[3, 97, 46, 98, 2, 10, 99, 0], 5, 1, 16, [1, 97]⟩),
-     .item (.record 7 ⟨[1, 119, 1, 116, 0], 9, 3, 99, []⟩),
-     .item (.record 8 ⟨[1, 116, 0], 9, 3, 2, [1, 97, 1, 116, 0]⟩),
-     .item (.record 9 ⟨[1, 116, 0], 9, 3, 15, [0, 10, 3, 109, 92, 10, 1, 120, 0]⟩),
-     .item (.record 11 ⟨[1, 116, 0], 9, 3, 6, [1, 116, 0, 1, 97, 1, 116, 0, 0, 0, 0, 1, 0, 0, 0, 2, 0, 0, 0, 3,
+     .item (.record 8 ⟨[1, 119, 1, 116, 0], 9, 3, 99, []⟩),
+     .item (.record 9 ⟨[1, 116, 0], 9, 3, 2, [1, 97, 1, 116, 0]⟩),
+     .item (.record 10 ⟨[1, 116, 0], 9, 3, 15, [0, 10, 3, 109, 92, 10, 1, 120, 0]⟩),
+     .item (.record 12 ⟨[1, 116, 0], 9, 3, 6, [1, 116, 0, 1, 97, 1, 116, 0, 0, 0, 0, 1, 0, 0, 0, 2, 0, 0, 0, 3,
               0, 0, 0, 4, 255, 255, 255, 255]⟩),
-     .item (.record 14 ⟨[1, 97, 1, 116, 0], 7, 1, 33, [0, 1, 0, 2, 0, 3, 1, 116, 0]⟩),
-     .item (.record 16 ⟨[1, 97, 1, 116, 0], 9, 1, 14, [1, 97, 1, 116, 0, 3, 109, 92, 10, 1, 120, 0]⟩),
-     .item (.record 18 ⟨[1, 97, 1, 116, 0], 9, 1, 1, [192, 0, 2, 1]⟩),
-     .item (.record 19 ⟨[1, 97, 1, 116, 0], 9, 1, 16, [4, 97, 10, 98, 34, 3, 99, 59, 100, 1, 100]⟩),
-     .item (.record 22 ⟨[1, 97, 1, 116, 0], 9, 1, 13, [0, 1, 100]⟩),
-     .item (.record 23 ⟨[1, 97, 1, 116, 0], 9, 1, 28, [32, 1, 13, 184, 0, 0, 0, 0, 0, 0, 0, 0, 0, 255, 255, 255]⟩),
-     .item (.incl 24 [120, 32, 121] (some [1, 97, 1, 116, 0])),
-     .item (.incl 25 [122] (some [1, 116, 0]))] := by
-  rw [C23_records_partial exFile exFile_ok.1 {} CtxWF_default _ exFile_ok.2]
+     .item (.record 15 ⟨[1, 97, 1, 116, 0], 7, 1, 33, [0, 1, 0, 2, 0, 3, 1, 116, 0]⟩),
+     .item (.record 17 ⟨[1, 97, 1, 116, 0], 9, 1, 14, [1, 97, 1, 116, 0, 3, 109, 92, 10, 1, 120, 0]⟩),
+     .item (.record 19 ⟨[1, 97, 1, 116, 0], 9, 1, 1, [192, 0, 2, 1]⟩),
+     .item (.record 20 ⟨[1, 97, 1, 116, 0], 9, 1, 16, [4, 97, 10, 98, 34, 3, 99, 59, 100, 1, 100]⟩),
+     .item (.record 23 ⟨[1, 97, 1, 116, 0], 9, 1, 13, [0, 1, 100]⟩),
+     .item (.record 24 ⟨[1, 97, 1, 116, 0], 9, 1, 28, [32, 1, 13, 184, 0, 0, 0, 0, 0, 0, 0, 0, 0, 255, 255, 255]⟩),
+     .item (.record 25 ⟨[1, 97, 1, 116, 0], 9, 1, 28, [254, 128, 0, 0, 0, 0, 0, 0, 0, 0, 0, 0, 0, 0, 0, 1]⟩),
+     .item (.record 26 ⟨[1, 97, 1, 116, 0], 9, 1, 28, [0, 0, 0, 0, 0, 0, 0, 0, 0, 0, 255, 255, 192, 0, 2, 1]⟩),
+     .item (.record 27 ⟨[1, 97, 1, 116, 0], 9, 1, 28, [0, 1, 0, 2, 0, 3, 0, 4, 0, 5, 0, 6, 10, 0, 0, 255]⟩),
+     .item (.record 28 ⟨[1, 97, 1, 116, 0], 9, 3, 1, [1, 116, 0, 255, 255]⟩),
+     .item (.incl 29 [120, 32, 121] (some [1, 97, 1, 116, 0])),
+     .item (.incl 30 [122] (some [1, 116, 0]))] := by
+  rw [C23_records_partial exFile exFile_ok.1 (by simp [exFile, EolsOK, entryEol]) {} CtxWF_default _ exFile_ok.2]
   rfl
 
 /-- the same file, evaluated directly: the text is what it is meant to be and the parser yields
-    twelve records and two include requests -/
-example : (parseAll (renderFile exFile) {}).length = 14 := by decide +kernel
+    sixteen records and two include requests -/
+example : (parseAll (renderFile exFile) {}).length = 18 := by decide +kernel
 
-/-- RDATA alone: ` ( 10 ;x<CRLF> a )` after the type field of an MX record, origin `t.` -/
+/-- RDATA alone: ` ( 10 ;x<CRLF> a )` and then the end of the file, after the type field of an MX
+    record, origin `t.` -/
 example : parseRdata { origin := some [1, 116, 0] } 1 15
     ⟨gapText [.blank false, .openParen, .blank false] ++
       (rdataText (fun _ => [.blank false, .newline [59, 120] true, .blank false]) (.mx 10 nA) ++
-        (tailText [.blank false, .closeParen] [] false ++ [])), 1, false⟩ =
-    .ok ([0, 10, 1, 97, 1, 116, 0], ⟨[], 3, false⟩) := by
+        (tailText [.blank false, .closeParen] [] .eof ++ [])), 1, false⟩ =
+    .ok ([0, 10, 1, 97, 1, 116, 0], ⟨[], 2, false⟩) := by
   have h := C23_rdata_partial { origin := some [1, 116, 0] }
     ⟨by intro o ho; cases ho; exact ⟨[[116]], by simp [LabelsOK], by decide, by decide⟩, by simp⟩
     1 15 (by decide) (by decide)
     (fun i => if i = 0 then [.blank false, .openParen, .blank false] else [.blank false, .newline [59, 120] true, .blank false])
-    (fun i => decide (1 ≤ i)) [.blank false, .closeParen] [] false [] (.mx 10 nA)
+    (fun i => decide (1 ≤ i)) [.blank false, .closeParen] [] .eof [] (fun _ => rfl) (.mx 10 nA)
     (by
       intro i hi
       have : i = 0 ∨ i = 1 := by simp [rdataGaps] at hi; omega
@@ -347,11 +388,11 @@ example : parseRdata { origin := some [1, 116, 0] } 1 15
     (TailOK_of_B (by decide))
     ⟨by decide, by unfold nA WFName; exact ⟨by decide, by simp [LabelsOK, labelOctets], by decide⟩⟩
     (by decide) [0, 10, 1, 97, 1, 116, 0] (by decide) (by intro g hg; cases hg) 1
-  simpa [rdataLines, gapLines, nameLines, nA, labelLines] using h
+  simpa [rdataLines, gapLines, nameLines, nA, labelLines, eolLines] using h
 
 private def exRec : PRecord :=
   ⟨.same, none, none, true, .mnemonic [109, 120] 15, .mx 10 nA, [], [[.blank false, .openParen]],
-    [.newline [] true, .closeParen], [], false⟩
+    [.newline [] true, .closeParen], [], .lf⟩
 
 /-- one record: ` mx (10 a<CRLF>)<LF>` with previous owner `t.`, TTL 9, class 1 — two lines -/
 example : ∃ ctx', parseLine { origin := some [1, 116, 0], prevOwner := some [1, 116, 0], prevTtl := some 9, prevClass := some 1 }
@@ -365,7 +406,7 @@ example : ∃ ctx', parseLine { origin := some [1, 116, 0], prevOwner := some [1
       ⟨by decide, by unfold nA WFName; exact ⟨by decide, by simp [LabelsOK, labelOctets], by decide⟩⟩,
       gaps_ok_of_B _ (by decide)⟩
   exact C23_record_partial _ ⟨by intro o ho; cases ho; exact hT, by intro o ho; cases ho; exact hT⟩ exRec hwf
-    1 [] ⟨1, [1, 116, 0], 9, 1, 15, [0, 10, 1, 97, 1, 116, 0]⟩ _ (by decide +kernel)
+    1 [] (by intro h; cases h) ⟨1, [1, 116, 0], 9, 1, 15, [0, 10, 1, 97, 1, 116, 0]⟩ _ (by decide +kernel)
 
 /-- a name field: `a\.b` relative to `t.` -/
 example : parseName (some [1, 116, 0]) ⟨nameText (.rel [] [(97, .raw), (46, .esc), (98, .raw)]) ++ [10], 1, false⟩ =
@@ -382,5 +423,45 @@ theorem C23_witness :
       [.item (.record 2 ⟨[1, 116, 0], 5, 1, 2, [1, 97, 1, 116, 0]⟩),
        .item (.record 4 ⟨[1, 116, 0], 5, 1, 16, [3, 120, 32, 121, 1, 122]⟩)] := by
   decide +kernel
+
+/-! ### WKS: the bit map (known finding D18) -/
+
+/-- **`serialize_in_wks` against RFC 1035 §3.4.2**, for every address, protocol and port list:
+    written with the most significant bit first (`0x80 >> (port % 8)`) the RDATA is the RFC's
+    (`wksBitmap`: port `8 i + j` is the bit of value `2 ^ (7 - j)` of octet `i`, stated
+    arithmetically from membership in the port list); written with the least significant bit
+    first (`1 << (port % 8)`) every octet of the bit map has its bits in the opposite order. -/
+theorem C23_wks_bitmap (msb : Bool) (addr : List UInt8) (proto : Nat) (ports : List Nat) :
+    newInWksWith msb addr proto ports =
+      addr ++ UInt8.ofNat proto :: (wksBitmap ports).map (if msb then id else revBits) :=
+  newInWksWith_eq msb addr proto ports
+
+/-- the repository under test (its mask expression is read by the extractor into
+    `Gen.wksMaskMsbFirst`): with the RFC's order the parser's WKS RDATA is `wksWire`; with the
+    other order it is `wksWire` with every bit-map octet bit-reversed -/
+theorem C23_wks_repository (addr : List UInt8) (proto : Nat) (ports : List Nat) :
+    (Gen.wksMaskMsbFirst = true → newInWks addr proto ports = wksWire addr proto ports) ∧
+    (Gen.wksMaskMsbFirst = false →
+      newInWks addr proto ports = addr ++ UInt8.ofNat proto :: (wksBitmap ports).map revBits) := by
+  unfold newInWks wksWire
+  rw [C23_wks_bitmap]
+  constructor <;> intro h <;> simp [h]
+
+/-- **known finding D18**, the witness: `a. 5 IN WKS 1.2.3.4 TCP 25` parses to the record whose
+    RDATA is what `serialize_in_wks` makes of address 1.2.3.4, protocol 6, ports [25]; with
+    `1 << (port % 8)` (src/rr/rdata/std13.rs:415) that is `01020304 06 00000002` — port 30 to
+    every reader that follows the RFC — while RFC 1035 §3.4.2 denotes `01020304 06 00000040`. -/
+theorem C23_wks_bit_order_witness :
+    parseAll ("a. 5 IN WKS 1.2.3.4 TCP 25\n".toUTF8.toList) {} =
+        [.item (.record 1 ⟨[1, 97, 0], 5, 1, 11, newInWks [1, 2, 3, 4] 6 [25]⟩)] ∧
+      newInWksWith false [1, 2, 3, 4] 6 [25] = [1, 2, 3, 4, 6, 0, 0, 0, 2] ∧
+      wksWire [1, 2, 3, 4] 6 [25] = [1, 2, 3, 4, 6, 0, 0, 0, 64] ∧
+      wksWire [1, 2, 3, 4] 6 [30] = [1, 2, 3, 4, 6, 0, 0, 0, 2] := by
+  decide +kernel
+
+/-- the two orders agree exactly on the bit maps whose octets read the same in both directions
+    (no ports; ports 0 and 7; …) -/
+example : newInWksWith false [1, 2, 3, 4] 17 [0, 7] = wksWire [1, 2, 3, 4] 17 [0, 7] ∧
+    newInWksWith false [1, 2, 3, 4] 6 [] = wksWire [1, 2, 3, 4] 6 [] := by decide +kernel
 
 end QV.C23
